@@ -19,7 +19,7 @@ from concurrent.futures import ThreadPoolExecutor
 
 ROOT = os.path.dirname(os.path.dirname(os.path.abspath(__file__)))
 COQ = os.path.join(ROOT, "coq")
-WORK = os.path.join(ROOT, "work")
+WORK = os.path.join(ROOT, "work" + os.environ.get("VERIF_WORKTAG", ""))
 BIN = os.path.join(WORK, "bin")
 REPO = os.environ.get("VERIF_REPO", "/repo")
 os.environ.setdefault("OCAMLRUNPARAM", "s=4M")
@@ -411,8 +411,16 @@ class Outcome:
         self.known = []
 
 
+def out_dir(name):
+    """evidence/ and replays/ of /verif are written only by runs against /repo itself; runs against a
+    private copy (VERIF_REPO, mutation testing) write under their work directory"""
+    if REPO != "/repo":
+        return os.path.join(WORK, name)
+    return os.path.join(ROOT, name)
+
+
 def write_replay(pid, payload):
-    d = os.path.join(ROOT, "replays")
+    d = out_dir("replays")
     os.makedirs(d, exist_ok=True)
     h = hashlib.sha1(json.dumps(payload, sort_keys=True).encode()).hexdigest()[:12]
     path = os.path.join(d, "%s-%s.json" % (pid, h))
@@ -421,10 +429,10 @@ def write_replay(pid, payload):
 
 
 def write_evidence(pid, tier, seed, coverage, assumptions, wall, violations):
-    os.makedirs(os.path.join(ROOT, "evidence"), exist_ok=True)
+    os.makedirs(out_dir("evidence"), exist_ok=True)
     ev = {"property_id": pid, "tier": tier, "seed": seed, "level": "proof", "coverage": coverage,
           "assumptions": assumptions, "wall_s": round(wall, 1), "violations": violations}
-    json.dump(ev, open(os.path.join(ROOT, "evidence", pid + ".json"), "w"), indent=1)
+    json.dump(ev, open(os.path.join(out_dir("evidence"), pid + ".json"), "w"), indent=1)
 
 
 def corpus_cases(pid):
